@@ -875,6 +875,18 @@ fn process_fn(
                 // proof hints
                 for (key, text) in &req.proofs {
                     let text = ctx.subst_param_refs(text, &params);
+                    if key == "tail" {
+                        // D16: bind the tail expression so that a proof hint can mention the result
+                        match b.stmts.last() {
+                            Some(syn::Stmt::Expr(e, None)) => {
+                                let rn = req.ret_name.clone().unwrap_or_else(|| "r".to_string());
+                                ctx.edits.insert(src.start(e), format!("let {}__ = ", rn), "D16", "tail expression bound to a local so that a proof hint can mention the result".to_string());
+                                ctx.edits.insert(src.end(e), format!(";\n        {}\n        {}__", text, rn), "D16", String::new());
+                            }
+                            _ => return Err("unsupported: `proof tail` needs a function body ending in a tail expression".to_string()),
+                        }
+                        continue;
+                    }
                     if key == "end" {
                         // before the closing brace of the function body (body must not end in a tail expression)
                         let close = src.off(b.brace_token.span.close().start());
